@@ -172,6 +172,14 @@ impl Prop for C14 {
             return serde_json::to_value(case).unwrap();
         }
         let mut picked = inputs::pick(env, rng, &Mix { fixture: 30, dodrio: if env.tier == Tier::Quick { 0 } else { 1 }, generated: 70, max_funcs: 12, valid_only: false });
+        // a late failure: a type error planted in one function body (the callback must not have run)
+        if rng.chance(1, 10) {
+            let mut gp = GenParams::draw(rng, 10);
+            gp.n_funcs = gp.n_funcs.max(2);
+            gp.plant_errors = 1;
+            let g = gen::generate(&gp);
+            picked = inputs::Picked { iref: inputs::input_ref(&format!("gen:{}", serde_json::to_string(&gp).unwrap()), &g.bytes), bytes: g.bytes, recipe: Some(g.recipe) };
+        }
         // raw .debug_* sections (arbitrary payloads): they must never leak into the output while DWARF generation is off
         let mut debug_spliced = false;
         if rng.chance(1, 4) {
